@@ -89,10 +89,14 @@ structure Quirks where
   annLoneKeeps : Bool := false
   /-- before fix 3: lone removals of env vars / devices were not re-emitted in the reply -/
   envDevNoMarker : Bool := false
+  /-- before fix 4: the reply entry of the container being updated started empty instead of
+      from the runtime's requested resources -/
+  ownEntryEmpty : Bool := false
   deriving DecidableEq, Repr, Inhabited
 
 def Quirks.fixed : Quirks := {}
-def Quirks.unfixed : Quirks := { pidsFromCopy := true, annLoneKeeps := true, envDevNoMarker := true }
+def Quirks.unfixed : Quirks :=
+  { pidsFromCopy := true, annLoneKeeps := true, envDevNoMarker := true, ownEntryEmpty := true }
 
 inductive Kind
   | create (id : Cid)
@@ -399,7 +403,7 @@ def isOwn (k : Kind) (id : Cid) : Bool :=
 
 /-- `getContainerUpdate`: find or create the reply entry for `u.containerId`; the ignore
     flag accumulates with `&&`. Returns the state with the entry present. -/
-def getUpdate (st : State) (p : Plugin) (u : Update) : Except Err State :=
+def getUpdate (q : Quirks) (st : State) (p : Plugin) (u : Update) : Except Err State :=
   match st.kind with
   | .create id => if id = u.containerId then .error (.selfUpdate p id) else go
   | _ => go
@@ -408,7 +412,9 @@ where
     if isOwn st.kind u.containerId then
       match st.own with
       | some e => .ok { st with own := some { e with ignoreFailure := e.ignoreFailure && u.ignoreFailure } }
-      | none => .ok { st with own := some (emptyUpdate u.containerId u.ignoreFailure) }
+      | none =>
+        let e := emptyUpdate u.containerId u.ignoreFailure
+        .ok { st with own := some (if q.ownEntryEmpty then e else { e with resources := some st.reqRes }) }
     else if st.updates.any (fun e => e.containerId = u.containerId) then
       .ok { st with updates := st.updates.map fun e =>
               if e.containerId = u.containerId then { e with ignoreFailure := e.ignoreFailure && u.ignoreFailure } else e }
@@ -449,7 +455,7 @@ def updData (q : Quirks) (st : State) (u : Update) : State :=
 
 /-- one element of `result.update`'s loop -/
 def update1 (q : Quirks) (st : State) (p : Plugin) (u : Update) : Except Err State :=
-  match getUpdate st p u with
+  match getUpdate q st p u with
   | .error e => .error e
   | .ok st1 =>
     match runOpsPartial u.containerId p st1.owners (updOps q st1 u) with
